@@ -66,6 +66,9 @@ func convCompFuncV1ToV2(cf *ugo.CompiledFunction, opWidth []int) error {
 			continue
 		}
 
+		if int(op) >= len(opWidth) {
+			return fmt.Errorf("unknown opcode %d at %d", op, i)
+		}
 		w := opWidth[op]
 		i += 1 + w
 	}
